@@ -338,7 +338,12 @@ func WireHeader(r *mon.Rand, o WireHeaderOpts) (*Node, int64) {
 				put(refcbor.NInt(16), refcbor.NTstr("application/cose"))
 			}
 		case 4:
-			put(refcbor.NInt(15), refcbor.NMap(refcbor.NInt(1), refcbor.NTstr("iss"), refcbor.NInt(6), refcbor.NInt(1700000000)))
+			// CWT claims; RFC 8392 allows a NumericDate to be an integer or a floating-point number
+			var iat *Node = refcbor.NInt(1700000000)
+			if r.Intn(3) == 0 {
+				iat = refcbor.NFloat64(1700000000.5)
+			}
+			put(refcbor.NInt(15), refcbor.NMap(refcbor.NInt(1), refcbor.NTstr("iss"), refcbor.NInt(4), refcbor.Clone(iat), refcbor.NInt(6), iat))
 		case 5:
 			put(refcbor.NInt(33), refcbor.NBstr(BytesValue(r)))
 		case 6:
